@@ -31,6 +31,7 @@ CHECKS = {
         "steps": [
             REPLAYS,
             rapid("roundtrip", "TestC14", 80000, 1500000, qshards=4, tshards=14),
+            plain("masks", "TestC14Masks"),
         ],
         "assumptions": [
             "values inside the documented field requirements: non-empty URIs, NAME/GROUP-ID/CODECS present, durations >= 10us, TargetDuration >= 1, integers < 2^31, whole-minute zone offsets",
